@@ -25,6 +25,15 @@ pub struct Case {
 	/// start from the prepared 90-block base chain (so Compact can run)
 	pub base: bool,
 	pub ops: Vec<Op>,
+	/// false: a fresh chain under SKIP_POW with free per-block difficulty (as the repository's own fork tests do),
+	/// so that a SIBLING can carry more work and a reorganisation can replace exactly as many blocks as it adds —
+	/// with real proofs of work siblings always tie and every reorganisation lengthens the chain
+	#[serde(default = "yes")]
+	pub real: bool,
+}
+
+fn yes() -> bool {
+	true
 }
 
 pub fn case_strategy(max_ops: usize, neg_weight: u32) -> impl Strategy<Value = Case> {
@@ -41,14 +50,44 @@ pub fn case_strategy(max_ops: usize, neg_weight: u32) -> impl Strategy<Value = C
 			}
 			bs.into_iter().map(Op::Block).collect::<Vec<_>>()
 		}),
+		// a block and a heavier SIBLING of the same shape (one transaction each, the same number of outputs,
+		// different outputs spent): the reorganisation swaps which leaves are spent without changing how many
+		// there are (only possible with free difficulty); then a restart, a validation, or nothing
+		2 => (any::<u16>(), any::<u16>(), 1usize..=3, 0u8..4, 1u16..500).prop_map(|(p1, p2, k, then, dt)| {
+			let blk = |pick: u16, parent: u8, diff: u16, dt: u16, cb_key: u8| RawBlock {
+				parent,
+				cb_key,
+				txs: vec![RawTx {
+					ins: vec![pick],
+					outs: (0..k).map(|j| RawOut { kind: 0, amt: (j % 5) as u8, key: (j % 5) as u8 }).collect(),
+					fee: 1,
+					kern: 0,
+					zero_offset: false,
+					chain_prev: false,
+				}],
+				dt,
+				diff,
+				neg: Neg::None,
+				neg_pick: 0,
+				hdr: 0,
+				inp: 0,
+			};
+			let mut v = vec![Op::Block(blk(p1, 0, 3, dt, 0)), Op::Block(blk(p2, 101, 700, dt + 7, 1))];
+			match then {
+				0 => v.push(Op::Reopen),
+				1 => v.push(Op::Validate),
+				_ => {}
+			}
+			v
+		}),
 		1 => Just(vec![Op::Reopen]),
 		1 => Just(vec![Op::Compact]),
 		1 => Just(vec![Op::Validate]),
 	];
-	(prop::bool::weighted(0.35), prop::collection::vec(seg, 1..=max_ops)).prop_map(move |(base, segs)| {
+	(prop::bool::weighted(0.35), prop::collection::vec(seg, 1..=max_ops), prop::bool::weighted(0.7)).prop_map(move |(base, segs, real)| {
 		let mut ops: Vec<Op> = segs.into_iter().flatten().collect();
 		ops.truncate(max_ops);
-		Case { base, ops }
+		Case { base, ops, real: real || base }
 	})
 }
 
@@ -150,6 +189,10 @@ pub fn clone_world(w: &World) -> World {
 
 /// open a fresh chain for a case: genesis only, or a copy of the base chain
 pub fn open_case(ctx: &Ctx, use_base: bool) -> Result<(ChainBox, World, usize), Fail> {
+	open_case_mode(ctx, use_base, true)
+}
+
+pub fn open_case_mode(ctx: &Ctx, use_base: bool, real: bool) -> Result<(ChainBox, World, usize), Fail> {
 	let dir = ctx.scratch_dir("c");
 	if use_base {
 		let b = base(ctx).map_err(|e| Fail::new("harness:base", e))?;
@@ -160,7 +203,7 @@ pub fn open_case(ctx: &Ctx, use_base: bool) -> Result<(ChainBox, World, usize), 
 		Ok((cb, w, head))
 	} else {
 		let cb = ChainBox::open(&dir).map_err(|e| Fail::new("init-fresh", e))?;
-		let w = World::new(&cb.genesis, true);
+		let w = World::new(&cb.genesis, real);
 		Ok((cb, w, 0))
 	}
 }
@@ -180,6 +223,7 @@ pub struct Stats {
 	pub compact_effective: u32,
 	pub status_differs: bool,
 	pub header_first: u32,
+	pub sibling_reorgs: u32,
 }
 
 /// Full comparison of what the chain reports with the model state of its head.
@@ -295,7 +339,8 @@ pub fn run_case(ctx: &Ctx, case: &Case, counting: bool) -> PResult {
 fn run_case_inner(ctx: &Ctx, case: &Case, counting: bool) -> PResult {
 	init_thread();
 	let ev = &ctx.ev;
-	let (mut cb, mut w, mut head) = open_case(ctx, case.base)?;
+	let (mut cb, mut w, mut head) = open_case_mode(ctx, case.base, case.real)?;
+	let pm = if case.real { PowMode::Real } else { PowMode::Skip(1) };
 	let base_nodes = w.nodes.len();
 	let mut st = Stats {
 		reorgs: 0,
@@ -310,6 +355,7 @@ fn run_case_inner(ctx: &Ctx, case: &Case, counting: bool) -> PResult {
 		compact_effective: 0,
 		status_differs: false,
 		header_first: 0,
+		sibling_reorgs: 0,
 	};
 	scan(&cb, &w, "start")?;
 	for (i, op) in case.ops.iter().enumerate() {
@@ -317,11 +363,11 @@ fn run_case_inner(ctx: &Ctx, case: &Case, counting: bool) -> PResult {
 			Op::Block(raw) => {
 				let built = w.build(cb.c(), raw, head).map_err(|e| Fail::new("builder", format!("op {}: {}", i, e)))?;
 				let prev_head = head;
-				header_first(cb.c(), &built.block, raw.hdr, built.verdict.is_ok(), PowMode::Real)?;
+				header_first(cb.c(), &built.block, raw.hdr, built.verdict.is_ok(), pm)?;
 				if raw.hdr != 0 {
 					st.header_first += 1;
 				}
-				let res = cb.c().process_block(built.block.clone(), opts(PowMode::Real));
+				let res = cb.c().process_block(built.block.clone(), opts(pm));
 				match (&built.verdict, &res) {
 					(Ok(model), Ok(tip)) => {
 						let n = w.push(&built, model.clone());
@@ -341,6 +387,9 @@ fn run_case_inner(ctx: &Ctx, case: &Case, counting: bool) -> PResult {
 									d += 1;
 								}
 								st.max_fork_depth = st.max_fork_depth.max(d);
+								if d == 1 && built.parent == a {
+									st.sibling_reorgs += 1;
+								}
 								// does some output differ in status between the two tips?
 								let (ma, mb) = (&w.nodes[prev_head].model.utxo, &w.nodes[n].model.utxo);
 								if ma.keys().any(|k| !mb.contains_key(k)) || mb.keys().any(|k| !ma.contains_key(k) && w.refs.get(k).map(|r| !r.cb).unwrap_or(false)) {
@@ -422,6 +471,12 @@ fn run_case_inner(ctx: &Ctx, case: &Case, counting: bool) -> PResult {
 		}
 		if case.base {
 			ev.class("histories_on_base_chain");
+		}
+		if !case.real {
+			ev.class("histories_with_free_difficulty");
+			if st.sibling_reorgs > 0 {
+				ev.class("histories_with_a_reorg_by_a_heavier_sibling");
+			}
 		}
 		for (k, v) in &st.negs {
 			ev.class_n(&format!("rejected_negative_blocks:{}", k), *v as u64);
